@@ -22,8 +22,28 @@ CHECKS = {
    technique="TLC model checking of ring/chord/pull-ring families (NoFalseCycle, ResolvedCompletes, UnbrokenReported) + trace validation of the outcome class",
    text="All enumerated cyclic configurations (rings of 2-5 with split delays, chords, tails, rings through pull-based components) are model checked: resolved rings complete, a cycle error is raised only when a lacking cycle is reachable; the real code's outcome class for each configuration is validated against the spec state (false-cycle, other-error clauses).",
    note=SCHED_NOTE),
+ "C05": dict(engine="check_sched", ref="6 C05",
+   technique="TLC model checking of the nondeterministic property-level scheduler against the as-coded driver (OrderIndependent) + real runs under all listing/link orders, each trace validated by TLC",
+   text="In mode 'abs' TLC explores every admissible update order of the property-level scheduler and checks that outcome class, final times and everything every consumer received equal those of the deterministic as-coded driver (so the outcome is a function of the configuration). Every base configuration is run on the real code under all listing orders (<= 24) and several link creation orders; each trace is validated (served tokens canonical) and outcomes are compared across orders.",
+   note=SCHED_NOTE + " Domain as stated in the property: no DelayToPush (a negative control shows order dependence with it)."),
+ "C09": dict(engine="check_outbuf", ref="6 C09",
+   technique="TLC model checking of OutBuf.tla (ServeAsUnlimited, Bound) + TLC-generated operation scripts replayed on a real Output, traces validated by TLC",
+   text="All interleavings of publications and per-consumer pulls up to the bounds are explored by TLC with the ghost unlimited history (nothing needed is dropped, history bound); every behaviour up to length 5 and simulated behaviours up to length 16 are executed on a real Output with 1-4 real end points (direct, behind pass-through adapter, push-based adapter) and validated event by event (served id, retained times).",
+   note="Bounded: <= 4 end points, <= 8 publications, gaps 1-4 ticks. Trusted: TLC, the script runner (harness/fv/outbuf_run.py)."),
+ "C10": dict(engine="check_spill", ref="6 C10",
+   technique="TLC model checking of OutBuf.tla/TimeBuf.tla with memory limits (accounting invariants) + scripts replayed on real outputs/adapters + whole compositions under limits validated by Sched_Trace",
+   text="Spill decisions, file accounting and finalisation are modelled for outputs and for every time adapter kind, for plain and masked payloads and limits around multiples of the payload size; TLC-generated scripts are executed on the real slots (served values, which entries are files, directory listing of the location and of a scratch working directory); compositions are run with limits None/0/8/20 and must produce TLC-accepted, identical series and leave no file.",
+   note="Payload sizes 8/16 bytes; limits {None,0,k*size-1,k*size}. Trusted: TLC, runners, os.listdir."),
+ "C11": dict(engine="check_timebuf", ref="6 C11",
+   technique="TLC model checking of TimeBuf.tla (exact rational definitions, eviction transparency) + scripts replayed on real adapters, values compared as exact rationals by TLC",
+   text="The definitions (next, previous, linear, step with dyadic positions) are written as exact rational functions of the full history; TLC checks that the retained buffer always yields the definition over the full history, exactness at publication times and refusal outside the range; TLC-generated scripts run on real NextTime/PreviousTime/LinearTime/StepTime (scalar and gridded) and every returned value is compared with the definition.",
+   note="Bounded: <= 7 publications, gaps 1-4, values from small integer sets; floats are converted to rationals with 1e-9 tolerance before the exact comparison."),
+ "C12": dict(engine="check_timebuf", ref="6 C12",
+   technique="TLC model checking of TimeBuf.tla (exact integrals, additivity over partitions, average in range) + scripts replayed on real AvgOverTime/SumOverTime",
+   text="Integrals of the linear/step interpolant are exact rationals; TLC checks additivity over arbitrary partitions, avg = integral/(p1-p0), average within contributing values, eviction transparency; scripts run on the real adapters (per-time and absolute sums, step positions, units of the result).",
+   note="First pull and repeated pulls at the same time are not asserted (outside the statement). Same bounds as C11."),
 }
 
 NOT_APPLICABLE = {
- **{f"C{n:02d}": "check not built yet in this round (the TLA+ module for it is planned in DESIGN.md section 3)" for n in range(5, 21)},
+ **{f"C{n:02d}": "check not built yet in this round (the TLA+ module for it is planned in DESIGN.md section 3)" for n in (6, 7, 8, 13, 14, 15, 16, 17, 18, 19, 20)},
 }
